@@ -46,7 +46,7 @@ def main():
         if earlier:
             avoid += ("\n\nThese ideas have been used already - do NOT repeat them or close variants of them (same code site "
                       "and same mechanism):\n" + "\n".join(earlier))
-        text = (tmpl.replace("@ID@", pid).replace("@N@", "3").replace("@PROPERTY@", json.dumps(props[pid], indent=1))
+        text = (tmpl.replace("@ID@", pid).replace("@N@", os.environ.get("SEED_N", "3")).replace("@PROPERTY@", json.dumps(props[pid], indent=1))
                 .replace("@AVOID@", avoid))
         json.dump(props[pid], open("/tmp/wt/%s.property.json" % pid, "w"), indent=1)
         open("/tmp/wt/%s.prompt.txt" % pid, "w").write(text)
